@@ -83,3 +83,55 @@ func wotsScanMain(args []string) {
 	}
 	fmt.Fprintf(os.Stderr, "hf=%d trials=%d low=%d high=%d\n", hf, trials, len(low), len(high))
 }
+
+// challengescan <trials>: 32-byte challenge seeds whose SampleInBall expansion rejects unusually many candidate positions
+// (consumes far more than the usual ~76 XOF bytes); lines "challenge-long <hex seed>" for corpus/dilithium_boundary.txt
+func challengeScanMain(args []string) {
+	trials, _ := strconv.ParseInt(args[0], 10, 64)
+	type hit struct {
+		used int
+		seed []byte
+	}
+	var mu sync.Mutex
+	var hits []hit
+	var wg sync.WaitGroup
+	for w := 0; w < 16; w++ {
+		wg.Add(1)
+		go func(w int) {
+			defer wg.Done()
+			seed := make([]byte, 32)
+			copy(seed, "challenge seed ")
+			buf := make([]byte, 8+8*136)
+			for i := int64(w); i < trials; i += 16 {
+				binary.LittleEndian.PutUint64(seed[16:], uint64(i))
+				sha3.ShakeSum256(buf[:272], seed)
+				pos := 8
+				for k := 256 - 60; k < 256; k++ {
+					for int(buf[pos]) > k {
+						pos++
+						if pos >= 270 {
+							break
+						}
+					}
+					pos++
+					if pos >= 270 {
+						break
+					}
+				}
+				if pos >= 100 {
+					mu.Lock()
+					hits = append(hits, hit{pos, append([]byte{}, seed...)})
+					mu.Unlock()
+				}
+			}
+		}(w)
+	}
+	wg.Wait()
+	sort.Slice(hits, func(i, j int) bool { return hits[i].used > hits[j].used })
+	for i, h := range hits {
+		if i < 8 {
+			fmt.Printf("challenge-long %x\n", h.seed)
+			fmt.Fprintf(os.Stderr, "used=%d\n", h.used)
+		}
+	}
+}
